@@ -4,6 +4,7 @@ Each function takes the report and the rule id under which to file its obligatio
 analysis can back clauses of several properties.
 """
 import ast
+import copy
 import textwrap
 
 from ..core import AnalysisError, norm, short
@@ -342,16 +343,52 @@ PHASES = {'request': 'provides', 'endpoint': 'endpoint_provides', 'render': 'ren
 PROVS_PHASE = dict((v, k) for k, v in PHASES.items())
 
 
-def _phase_comp(e):
-    """``[(mw.F, mw.P) for mw in X if ...]`` / ``[mw.A for mw in X if ...]`` -> description of the comprehension, else None."""
+def _attr_read(x, var, resolve=None):
+    """The attribute of the loop variable ``var`` that expression ``x`` reads -- ``var.a``, ``getattr(var, 'a')`` /
+    ``getattr(var, K)`` with K a local / constant holding the string where the expression stands, ``G(var)`` with G a local
+    bound there to ``operator.attrgetter('a')`` -- or None.  ``resolve(name)`` gives the expression a name stands for at
+    that point (flow-sensitive: the interpreter's current binding)."""
+    if isinstance(x, ast.Attribute) and isinstance(x.value, ast.Name) and x.value.id == var:
+        return x.attr
+    if not (isinstance(x, ast.Call) and not x.keywords):
+        return None
+
+    def const_str(k, depth=0):
+        if isinstance(k, ast.Constant) and isinstance(k.value, str):
+            return k.value
+        if isinstance(k, ast.Name) and resolve is not None and depth < 3:
+            v = resolve(k.id)
+            return const_str(v, depth + 1) if v is not None else None
+        return None
+    if isinstance(x.func, ast.Name) and x.func.id == 'getattr' and len(x.args) == 2 and isinstance(x.args[0], ast.Name) and x.args[0].id == var:
+        return const_str(x.args[1])
+    if isinstance(x.func, ast.Name) and resolve is not None and len(x.args) == 1 and isinstance(x.args[0], ast.Name) and x.args[0].id == var:
+        g = resolve(x.func.id)
+        if isinstance(g, ast.Call) and norm(g.func) in ('attrgetter', 'operator.attrgetter') and len(g.args) == 1 and not g.keywords:
+            a = const_str(g.args[0])
+            if a is not None and a.isidentifier():
+                return a
+    return None
+
+
+def _phase_comp(e, resolve=None):
+    """``[(mw.F, mw.P) for mw in X if ...]`` / ``[mw.A for mw in X if ...]`` -> description of the comprehension, else None.
+    The attribute reads may be spelled in any of the ways _attr_read follows; ``ifs_text`` holds the filters with such reads
+    written as ``mw.a``."""
     if not isinstance(e, (ast.ListComp, ast.GeneratorExp)) or len(e.generators) != 1 or not isinstance(e.generators[0].target, ast.Name):
         return None
     g = e.generators[0]
     var = g.target.id
 
     def attr_of(x):
-        return x.attr if isinstance(x, ast.Attribute) and isinstance(x.value, ast.Name) and x.value.id == var else None
-    d = {'var': var, 'iter': g.iter, 'ifs': list(g.ifs), 'node': e}
+        return _attr_read(x, var, resolve)
+
+    def canon_text(c):
+        c2, pol = _strip_not(c)
+        a = attr_of(c2)
+        t = '%s.%s' % (var, a) if a is not None else norm(c2)
+        return t if pol else 'not %s' % t
+    d = {'var': var, 'iter': g.iter, 'ifs': list(g.ifs), 'node': e, 'ifs_text': [canon_text(c) for c in g.ifs]}
     if isinstance(e.elt, ast.Tuple) and len(e.elt.elts) == 2 and attr_of(e.elt.elts[0]) and attr_of(e.elt.elts[1]):
         d.update(kind='sigs', func=attr_of(e.elt.elts[0]), prov=attr_of(e.elt.elts[1]))
         return d
@@ -408,9 +445,29 @@ def check_phase_sets(rep, rule, rule_pair=None, rule_order=None, rule_core_env=N
         if kind == 'sigs':
             comp_of_phase.setdefault(('provs', PROVS_PHASE.get(d['prov'])), d)
 
+    def resolver(it):
+        """name -> the expression the local stands for where the interpreter is now (a value it carries unevaluated)."""
+        def resolve(name):
+            raw = it.env.raw(name)
+            return raw.expr if isinstance(raw, Opaque) and raw.tag is None and isinstance(raw.expr, ast.expr) else None
+        return resolve
+
     def model(it, e):
         if isinstance(e, (ast.SetComp, ast.ListComp, ast.GeneratorExp)):
-            return flatten_comp(it, e)
+            r = flatten_comp(it, e)
+            if r is None and not isinstance(e, ast.SetComp):
+                # a phase list, described where it is built (the names it reads are bound flow-sensitively)
+                d = _phase_comp(e, resolver(it))
+                if d is not None:
+                    d = comps.setdefault(id(e), d)
+                    return Opaque(e, (d['kind'], d['func'] if d['func'] is not None else PROVS_PHASE.get(d['prov']), id(e)))
+            return r
+        if isinstance(e, ast.Subscript) and isinstance(e.value, ast.Name) and isinstance(e.slice, ast.Constant) and \
+                type(e.slice.value) is int:
+            raw = it.env.raw(e.value.id)      # a pair (function list, provides list) built by a loop: see for_model
+            if isinstance(raw, tuple) and 0 <= e.slice.value < len(raw):
+                return it.env.get(e.value.id)[e.slice.value]
+            return None
         if isinstance(e, ast.Call):
             cn = call_name(e)
             if cn == 'zip' and len(e.args) == 1 and isinstance(e.args[0], ast.Starred) and not e.keywords:
@@ -454,7 +511,7 @@ def check_phase_sets(rep, rule, rule_pair=None, rule_order=None, rule_core_env=N
                     return r
             if cn in ('set', 'frozenset') and e.args:
                 for n in ast.walk(e.args[0]):
-                    if isinstance(n, ast.Name):
+                    if isinstance(n, ast.Name) or (isinstance(n, ast.Subscript) and isinstance(n.value, ast.Name)):
                         pv = phase_val(it.try_eval(n))
                         if pv is not None and pv[0] == 'provs' and pv[1] in provs_atom:
                             note(pv[2], 'provs', pv[1])
@@ -477,6 +534,38 @@ def check_phase_sets(rep, rule, rule_pair=None, rule_order=None, rule_core_env=N
             return flatten_comp(it, e)
         return None
 
+    def _is_empty_list(v):
+        return (isinstance(v, ast.List) and not v.elts) or (isinstance(v, ast.Call) and call_name(v) == 'list' and not v.args and not v.keywords)
+
+    def _bound_part(target, value, name):
+        """The part of ``value`` that the assignment ``target = value`` binds to the local ``name`` (displays are taken apart
+        position by position)."""
+        if isinstance(target, ast.Name):
+            return value if target.id == name else None
+        if isinstance(target, (ast.Tuple, ast.List)) and isinstance(value, (ast.Tuple, ast.List)) and len(target.elts) == len(value.elts) and \
+                not any(isinstance(x, ast.Starred) for x in list(target.elts) + list(value.elts)):
+            for t_, v_ in zip(target.elts, value.elts):
+                r = _bound_part(t_, v_, name)
+                if r is not None:
+                    return r
+        return None
+
+    def reaching_value(name, before):
+        """The expression the local ``name`` holds when the top-level statement ``before`` of the function starts: bound by the
+        closest preceding top-level statement that mentions the name at all (so nothing re-binds, mutates or aliases it in
+        between)."""
+        body = fi.node.body
+        idx = [i for i, s_ in enumerate(body) if s_ is before]
+        if not idx:
+            return None
+        for s_ in reversed(body[:idx[0]]):
+            if not any(isinstance(n, ast.Name) and n.id == name for n in ast.walk(s_)):
+                continue
+            if isinstance(s_, ast.Assign) and len(s_.targets) == 1:
+                return _bound_part(s_.targets[0], s_.value, name)
+            return None
+        return None
+
     def empty_list_local(name):
         """``name`` is bound exactly once in the function, to an empty list (possibly in ``a, b = [], []``)."""
         b = assigned_value(fi.node, name)
@@ -487,11 +576,29 @@ def check_phase_sets(rep, rule, rule_pair=None, rule_order=None, rule_core_env=N
             v = v.elts[idx]
         elif idx is not None:
             return False
-        return (isinstance(v, ast.List) and not v.elts) or (isinstance(v, ast.Call) and call_name(v) == 'list' and not v.args)
+        return _is_empty_list(v)
+
+    def empty_list_at(target, loop):
+        """The list the loop appends to -- a local, or one side ``pair[k]`` of a local tuple of lists -- is a fresh empty list when
+        the loop starts.  -> (base name, index or None, arity of the tuple or None), or None."""
+        if isinstance(target, ast.Name):
+            v = reaching_value(target.id, loop)
+            if (v is not None and _is_empty_list(v)) or (v is None and empty_list_local(target.id)):
+                return target.id, None, None
+            return None
+        if isinstance(target, ast.Subscript) and isinstance(target.value, ast.Name) and isinstance(target.slice, ast.Constant) and \
+                type(target.slice.value) is int:
+            v = reaching_value(target.value.id, loop)
+            k = target.slice.value
+            if isinstance(v, ast.Tuple) and 0 <= k < len(v.elts) and all(_is_empty_list(x) for x in v.elts):
+                return target.value.id, k, len(v.elts)
+        return None
 
     def for_model(it, st):
         """Loop forms: (1) ``for mw in middlewares: if mw.request: funcs.append(mw.request); provs.append(mw.provides)``
-        builds phase lists; (2) ``for p in req_provides: names.update(p)`` flattens a provides list."""
+        builds phase lists -- the slot may be read into a loop-local first (``func = mw.request``), a middleware without the
+        slot may be skipped by ``if not func: continue``, the lists may be the two sides of a local pair (``sig[0].append``);
+        (2) ``for p in req_provides: names.update(p)`` flattens a provides list."""
         if not isinstance(st.target, ast.Name) or st.orelse:
             return False
         var = st.target.id
@@ -517,35 +624,66 @@ def check_phase_sets(rep, rule, rule_pair=None, rule_order=None, rule_core_env=N
                                            len(st.iter.args) == 1 and norm(st.iter.args[0]) == ps[0]):
             return False
         found = []
+        alias = {}        # loop-local name -> the attribute read of the middleware it stands for in this iteration
+        res = resolver(it)
+        stores_in_loop = [n.id for b_ in st.body for n in ast.walk(b_) if isinstance(n, ast.Name) and isinstance(n.ctx, (ast.Store, ast.Del))]
 
-        def walk(body, cs):
-            for b in body:
+        class _Sub(ast.NodeTransformer):
+            def visit_Name(self, node):
+                if isinstance(node.ctx, ast.Load) and node.id in alias:
+                    return ast.copy_location(copy.deepcopy(alias[node.id]), node)
+                return node
+
+        def subst(x):
+            return _Sub().visit(copy.deepcopy(x)) if alias else x
+
+        def walk(body, cs, top):
+            body = list(body)
+            for i, b in enumerate(body):
                 if isinstance(b, ast.If):
-                    t, pol = _strip_not(b.test)
-                    walk(b.body, cs + [(t, pol)])
-                    walk(b.orelse, cs + [(t, not pol)])
+                    t, pol = _strip_not(subst(b.test))
+                    if len(b.body) == 1 and isinstance(b.body[0], ast.Continue) and not b.orelse:
+                        # ``if <no such slot>: continue``: what follows in this block runs for the others
+                        walk(body[i + 1:], cs + [(t, not pol)], False)
+                        return
+                    walk(b.body, cs + [(t, pol)], False)
+                    walk(b.orelse, cs + [(t, not pol)], False)
                 elif isinstance(b, ast.Expr) and isinstance(b.value, ast.Call) and isinstance(b.value.func, ast.Attribute) and \
-                        b.value.func.attr == 'append' and isinstance(b.value.func.value, ast.Name) and len(b.value.args) == 1:
-                    found.append((b.value.func.value.id, b.value.args[0], cs, b))
+                        b.value.func.attr == 'append' and isinstance(b.value.func.value, (ast.Name, ast.Subscript)) and len(b.value.args) == 1 \
+                        and not b.value.keywords:
+                    found.append((norm(b.value.func.value), b.value.func.value, subst(b.value.args[0]), cs, b))
+                elif isinstance(b, ast.Assign) and top and not cs and len(b.targets) == 1 and isinstance(b.targets[0], ast.Name) and \
+                        b.targets[0].id != var and b.targets[0].id not in alias and stores_in_loop.count(b.targets[0].id) == 1 and \
+                        _attr_read(b.value, var, res) is not None:
+                    alias[b.targets[0].id] = b.value
                 elif isinstance(b, ast.Pass):
                     continue
                 else:
                     raise Unmodelled('statement %s in the loop over the middlewares' % norm(b)[:60])
-        walk(st.body, [])
+        walk(st.body, [], True)
         if not found:
             return False
-        for lname, val, cs, b in found:
+        pairs = {}
+        for lname, target, val, cs, b in found:
             fake = ast.copy_location(ast.ListComp(elt=val, generators=[ast.comprehension(
                 target=ast.Name(id=var, ctx=ast.Store()), iter=st.iter, ifs=[t if pol else ast.UnaryOp(op=ast.Not(), operand=t) for t, pol in cs],
                 is_async=0)]), b)
-            d = _phase_comp(fake)
-            if d is None or not empty_list_local(lname) or sum(1 for f in found if f[0] == lname) != 1:
+            d = _phase_comp(fake, res)
+            where = empty_list_at(target, st) if d is not None else None
+            if d is None or where is None or sum(1 for f in found if f[0] == lname) != 1:
                 raise Unmodelled('list %s built in the loop over the middlewares is not a phase list' % lname)
             d['node'] = st
             d['fake'] = fake
             comps[id(fake)] = d
             phase = d['func'] if d['func'] is not None else PROVS_PHASE.get(d['prov'])
-            it.env[lname] = Opaque(fake, (d['kind'], phase, id(fake)))
+            val_ = Opaque(fake, (d['kind'], phase, id(fake)))
+            base, k, arity = where
+            if k is None:
+                it.env[base] = val_
+            else:
+                pairs.setdefault(base, [Opaque(None, 'list not filled by the loop')] * arity)[k] = val_
+        for base, vals in pairs.items():
+            it.env[base] = tuple(vals)
         return True
 
     def if_model(it, st):
@@ -608,13 +746,14 @@ def check_phase_sets(rep, rule, rule_pair=None, rule_order=None, rule_core_env=N
                 itx = d['iter']
                 while isinstance(itx, ast.Call) and call_name(itx) in ('list', 'tuple', 'iter') and len(itx.args) == 1:
                     itx = itx.args[0]
-                flt = [norm(c) for c in d['ifs']]
+                flt = d.get('ifs_text') or [norm(c) for c in d['ifs']]
                 return norm(itx) == ps[0] and flt == ['%s.%s' % (d['var'], ph)] and not d.get('reordered')
             ok = in_order(fd) and pd is not None and in_order(pd)
             rep.check(rule_order, fkey(fi, 'order of mw.%s' % ph), ok,
                       'the %s functions are taken from the middleware list in list order, filtered by presence only' % ph if ok else
                       'the %s function list is not the middleware list in order filtered by presence (iter %s, filters %s%s)'
-                      % (ph, norm(fd['iter']), [norm(c) for c in fd['ifs']], ', then %s()' % fd['reordered'] if fd.get('reordered') else ''),
+                      % (ph, norm(fd['iter']), (fd if not in_order(fd) or pd is None else pd).get('ifs_text') or [norm(c) for c in fd['ifs']],
+                         ', then %s()' % fd['reordered'] if fd.get('reordered') else ''),
                       core, fd['node'])
     # ---- availability sets by abstract interpretation
     base = uni['PRE'] & uni.neg(uni['NEXT']) & uni.neg(uni['CTX'])
